@@ -463,4 +463,27 @@ func init() {
 			"crash points are regatta's own file-system calls",
 		},
 	}
+	props["C07"] = &Property{
+		Title: "restoring a table stream reproduces the captured content",
+		Instances: func(tier string) []*Instance {
+			tb := "storage/table"
+			r := []*Instance{
+				{Pkg: tb, Func: "VH_C07_restore", Args: []int64{0}, Unwind: 64},
+				{Pkg: tb, Func: "VH_C07_restore", Args: []int64{1}, Unwind: 64},
+				{Pkg: tb, Func: "VH_C07_restore", Args: []int64{2}, Unwind: 64},
+				{Pkg: tb, Func: "VH_C07_vacuity", Expect: "violated"},
+			}
+			if tier == "thorough" {
+				r = append(r, &Instance{Pkg: tb, Func: "VH_C07_restore", Args: []int64{3}, Unwind: 64})
+			}
+			return r
+		},
+		Covers: map[string][]string{"VH_C07_restore": {"end", "threshold-on-first-record"}},
+		Bounds: map[string]string{
+			"quick":    "streams of 0..2 records (PUT commands with arbitrary 1-byte keys and values, in key order) plus the final index-carrying command, restored into an empty table with an arbitrary 64-bit MaxInMemLogSize (incl. 0), so the batch threshold falls on every record position; declared index 1..64",
+			"thorough": "0..3 records",
+		},
+		Outside: "production of the stream on the leader (commandSnapshot over a pinned Pebble snapshot: point-in-time is Pebble's snapshot isolation, model M1), the chunk transport and file framing (C18), Manager.Restore's shard start / leader wait / catalogue switch (C14), retry timing, the backup manifest's md5 check, large values",
+		Assumptions: []string{"M1, M2 (proposals applied by the real FSM.Update), backoff.Retry calls the proposal at most twice", "one Read call of the source delivers one record (snapshotFile.Read contract, C18)"},
+	}
 }
